@@ -637,14 +637,24 @@ def run_certs_bounded(name, req, unfolds, goals, goal_timeout, shard_budget, ext
     def one(job):
         k, idx = job
         ok, bad, uneval, logs = [], [], [], []
-        rest, t_end, rnd = list(idx), time.time() + shard_budget, 0
+        rest, used, rnd = list(idx), 0.0, 0
+        d = os.path.join(common.BUILD, 'scratch')
+        common.mkdirs(d)
         while rest:
-            left = t_end - time.time()
+            left = shard_budget - used          # coqc running time only: waiting for a machine-wide coqc slot does not count
             if left < 5:
                 uneval += rest
                 logs.append('[shard %d: time budget of %ds used up, %d goals not evaluated]' % (k, shard_budget, len(rest)))
                 break
-            good, out = common.coq_scratch('%s_bcert_%d_%d' % (name, k, rnd), text(rest), timeout=min(left, len(rest) * (goal_timeout + 5) + 120), retries=0)
+            path = os.path.join(d, '%s_bcert_%d_%d.v' % (name, k, rnd))
+            with open(path, 'w') as f:
+                f.write(text(rest))
+            with common.Slot():
+                t1 = time.time()
+                rc, out = common.sh(['coqc', '-w', '-all'] + common.COQ_FLAGS + ['-Q', d, 'Scratch', path], cwd=d,
+                                    timeout=min(left, len(rest) * (goal_timeout + 5) + 120))
+                used += time.time() - t1
+            good = rc == 0
             rnd += 1
             qed = {int(x) for x in re.findall(r'CERT-QED (\d+)', out)}
             ok += [i for i in rest if i in qed]
